@@ -159,9 +159,16 @@ pub fn run(ctx: &mut Ctx) {
             cls.push(base);
             // C06 is about orders over the CNF's own variables: every CNF compiled by this builder
             // gets exactly the builder's variables (a clause on the last variable is added if needed)
+            // (half of the builders also get CNFs over fewer variables than their order: since
+            // F24 a builder compiles any CNF whose labels it knows)
+            let pad = rng.bool();
             for c in cls.iter_mut() {
                 if clauses_num_vars(c) < nv {
-                    c.push(vec![(nv - 1, rng.bool()), (rng.below(nv), rng.bool())]);
+                    if pad {
+                        c.push(vec![(nv - 1, rng.bool()), (rng.below(nv), rng.bool())]);
+                    } else {
+                        ctx.count("compilations_of_a_cnf_over_fewer_variables_than_the_builder", 1);
+                    }
                 }
             }
             let n = cls.iter().map(clauses_num_vars).max().unwrap();
